@@ -174,12 +174,41 @@ class Arena:
         shutil.rmtree(self.base, ignore_errors=True)
 
 
+PATH_FORM = [0]      # rotated by call_export: how the caller spells the target path
+
+
 def call_export(doc, exporter, target, stub):
-    with contextlib.redirect_stdout(io.StringIO()):
-        if exporter == "rtf":
-            doc.write_rtf(target)
-        else:
-            getattr(doc, "write_" + exporter)(target, converter=stub)
+    """the same target, spelled as an absolute str, a pathlib.Path, a path relative to the current directory, or a
+    path with redundant segments - the file has to land at the same place"""
+    import pathlib
+    PATH_FORM[0] += 1
+    form = PATH_FORM[0] % 5
+    arg, cwd = target, None
+    if form == 1:
+        arg = pathlib.Path(target)
+    elif form == 2:
+        cwd = os.getcwd()
+        base = os.path.dirname(os.path.dirname(target)) or "/"
+        os.chdir(base)
+        arg = os.path.relpath(target, base)
+    elif form == 3:
+        d, f = os.path.split(target)
+        arg = os.path.join(d, ".", "..", os.path.basename(d), f)      # only segments that exist
+        if not os.path.isdir(d):
+            arg = target          # (redundant segments need the directory to exist)
+    elif form == 4:
+        cwd = os.getcwd()
+        os.chdir(os.path.dirname(os.path.dirname(target)) or "/")
+        arg = pathlib.Path(os.path.relpath(target, os.getcwd()))
+    try:
+        with contextlib.redirect_stdout(io.StringIO()):
+            if exporter == "rtf":
+                doc.write_rtf(arg)
+            else:
+                getattr(doc, "write_" + exporter)(arg, converter=stub)
+    finally:
+        if cwd is not None:
+            os.chdir(cwd)
 
 
 class EncodeTap:
